@@ -336,6 +336,8 @@ register(PropertySpec(
              "(shared with C12) a rule records as 'inferred for this evaluation' only what it marked itself: a variable that is inferred already is not un-marked by the reset after an abandoned evaluation"),
         Rule("PULLED-RECORD", _lazy("lazy", "rule_pulled_record"), 3,
              "the record of what was pulled from a one-shot source is appended to only with the value just pulled, and emptied only by clear()"),
+        Rule("SLOT-STORE-LINKED", _lazy("history", "rule_slot_store_linked"), 3,
+             "a node put into another node's operand / child slot after construction is linked below it in the graph as well (the reset and the cache invalidation follow the graph)"),
     ],
     explanation="History independence is absence of residue on the shared expression nodes. Decided: where residue is "
                 "written (discovered mechanically from dataclass fields and mutation sites reachable from evaluation "
@@ -524,6 +526,8 @@ register(PropertySpec(
              "entity and set_of are one implementation: a type test on the kind of a descriptor covers every kind (same test or the arms of its chain), so a rule or query written with set_of takes the paths the same one written with entity takes"),
         Rule("EXPR-IDENTITY", _lazy("ruletree", "rule_expr_identity"), 1,
              "engine code compares nodes by identity: == / != on a node-valued slot would build a (truthy) comparison expression"),
+        Rule("SLOT-STORE-LINKED", _lazy("history", "rule_slot_store_linked"), 3,
+             "a node put into another node's operand / child slot after construction is linked below it in the graph as well (the reset and the cache invalidation follow the graph)"),
     ],
     explanation="Attaching a branch rewires the condition tree in place; evaluation follows the left/right fields, not "
                 "the graph edges, so a selector that is attached in the graph but not stored in its parent's operand slot "
@@ -780,6 +784,8 @@ register(PropertySpec(
              "(shared with C12) which variables a conclusion leaves unbound is looked up for every row that fires (a variable without a domain mentioned only by the conclusion of a later branch ranges over the registry too)"),
         Rule("EXPR-IDENTITY", _lazy("ruletree", "rule_expr_identity"), 1,
              "(shared with C12) engine code compares nodes by identity (== / in on a node reads an unset field of the graph node, or builds a comparison)"),
+        Rule("SLOT-STORE-LINKED", _lazy("history", "rule_slot_store_linked"), 3,
+             "a node put into another node's operand / child slot after construction is linked below it in the graph as well (the reset and the cache invalidation follow the graph)"),
     ],
     explanation="Registry discipline is ownership: a single writer, on a must-pass-through path of the concrete "
                 "constructor arm, keyed by the runtime class; the symbolic arm provably (call-graph closure) cannot "
